@@ -8,6 +8,7 @@ import (
 	"encoding/json"
 	"flag"
 	"fmt"
+	"regexp"
 	"go/ast"
 	"go/types"
 	"os"
@@ -84,6 +85,8 @@ var whitelist = []FuncSpec{
 	{"pkg/provider", "Response", "makeSuccessfulResponse"},
 	{"pkg/provider", "", "createSignature"},
 	{"pkg/provider", "IdentityProvider", "loginResponse"},
+	{"pkg/provider", "IdentityProvider", "errorResponse"},
+	{"pkg/provider", "IdentityProvider", "callbackHandleFunc"},
 }
 
 // extraFields are struct fields the hand-written handler models read although no translated function does.
@@ -107,6 +110,8 @@ type world struct {
 	oracles map[string]*oracle
 	oraOrd  []string
 	pool    map[string]bool // string literals seen
+	effs    map[string][]string // effect constructors (Gen.Eff): name -> Lean argument types
+	effOrd  []string
 	notes   []string
 }
 
@@ -167,7 +172,7 @@ func main() {
 		fatal("load: %v", err)
 	}
 	w := &world{pkgs: map[string]*packages.Package{}, funcs: map[string]*fn{}, byObj: map[types.Object]*fn{},
-		structs: map[string]*structInfo{}, oracles: map[string]*oracle{}, pool: map[string]bool{}}
+		structs: map[string]*structInfo{}, oracles: map[string]*oracle{}, pool: map[string]bool{}, effs: map[string][]string{}}
 	for _, p := range pkgs {
 		for _, e := range p.Errors {
 			fatal("package %s: %v", p.PkgPath, e)
@@ -353,7 +358,7 @@ func (w *world) prepare(f *fn) {
 
 func isIgnoredType(t types.Type) bool {
 	s := t.String()
-	return s == "context.Context"
+	return s == "context.Context" || s == "net/http.ResponseWriter" || s == "*net/http.Request"
 }
 
 // ---------------------------------------------------------------- types
@@ -471,6 +476,9 @@ type tctx struct {
 	nret    int
 	// newIDSites counts the NewID() call sites translated so far in this function
 	newIDSites int
+	// hasEff: the function performs observable effects (http.Error, sendBack…): the frame carries their trace `eff_`,
+	// which is returned after the results and in-out values
+	hasEff bool
 	// wbOK: the call being translated sits in a statement position that writes in-out values back
 	wbOK bool
 }
@@ -570,9 +578,14 @@ func (w *world) translate(f *fn) {
 	}
 	c.nret = len(rts)
 	w.scanInout(f)
+	c.hasEff = f.body != nil && hasEffects(f.body, f.pkg.TypesInfo)
 	all := append([]string{}, rts...)
 	for _, p := range f.inout {
 		all = append(all, p.leanTy)
+	}
+	if c.hasEff {
+		all = append(all, "(List Eff)")
+		c.fields = append(c.fields, frameField{"eff_", "(List Eff)", "[]"})
 	}
 	switch len(all) {
 	case 0:
@@ -593,9 +606,9 @@ func (w *world) translate(f *fn) {
 		}
 	}
 	body := c.stmts(f.body.List, "  ")
-	if len(f.inout) > 0 && len(rts) == 0 {
+	if (len(f.inout) > 0 || c.hasEff) && len(rts) == 0 {
 		// falling off the end returns the final values of the in-out parameters
-		body = fmt.Sprintf("  Ctl.seq\n%s\n    fun s =>\n    .ret %s", body, c.retTuple(nil))
+		body = fmt.Sprintf("  Ctl.seq\n  (\n%s)\n    fun s =>\n    .ret %s", body, c.retTuple(nil))
 	}
 	var sb strings.Builder
 	fmt.Fprintf(&sb, "namespace %s\n", f.lean)
@@ -622,6 +635,9 @@ func (c *tctx) retTuple(es []string) string {
 	all := append([]string{}, es...)
 	for _, p := range c.f.inout {
 		all = append(all, "s."+c.locals[p.obj])
+	}
+	if c.hasEff {
+		all = append(all, "s.eff_")
 	}
 	if len(all) == 0 {
 		return "()"
@@ -658,7 +674,7 @@ func (c *tctx) stmts(list []ast.Stmt, ind string) string {
 		if len(s.Results) == 1 && c.nret > 1 {
 			// return f(...) with tuple result
 			v := c.expr(s.Results[0])
-			if len(c.f.inout) > 0 {
+			if len(c.f.inout) > 0 || c.hasEff {
 				if c.nret != 2 {
 					panic("return of a call with more than two results from a function with in-out parameters")
 				}
@@ -688,6 +704,11 @@ func (c *tctx) stmts(list []ast.Stmt, ind string) string {
 	case *ast.ExprStmt:
 		if c.skippableCall(s.X) {
 			return c.stmts(rest, ind)
+		}
+		if c.hasEff {
+			if v, ok := c.effectCall(s.X); ok {
+				return guardWrap(v.g, ind, fmt.Sprintf("%slet s := { s with eff_ := s.eff_ ++ [%s] };\n%s", ind, v.e, c.stmts(rest, ind)))
+			}
 		}
 		if v, nres, wb, ok := c.writeBackCall(s.X); ok {
 			return c.assignWB(nil, nil, v, nres, wb, rest, ind)
@@ -868,6 +889,87 @@ func (c *tctx) skippableCall(e ast.Expr) bool {
 }
 
 
+
+
+// effectMethods: methods of the library whose call is an observable effect of a handler (what is written to the client)
+var effectMethods = map[string]bool{"sendBackResponse": true, "sendBackLogoutResponse": true}
+
+// effectCall recognises `http.Error(w, msg, code)` and `x.sendBackResponse(r, w, m)`: returns the Eff constructor
+// application, or ok = false
+func (c *tctx) effectCall(e ast.Expr) (v val, ok bool) {
+	x, isCall := e.(*ast.CallExpr)
+	if !isCall {
+		return val{}, false
+	}
+	sel, isSel := x.Fun.(*ast.SelectorExpr)
+	if !isSel {
+		return val{}, false
+	}
+	reg := func(name string, tys []string) {
+		if _, has := c.w.effs[name]; !has {
+			c.w.effs[name] = tys
+			c.w.effOrd = append(c.w.effOrd, name)
+		}
+	}
+	if id, isId := sel.X.(*ast.Ident); isId {
+		if pn, isPkg := c.info.Uses[id].(*types.PkgName); isPkg {
+			if pn.Imported().Path() == "net/http" && sel.Sel.Name == "Error" && len(x.Args) == 3 {
+				m := c.expr(x.Args[1])
+				code := c.expr(x.Args[2])
+				reg("httpError", []string{"String", "Int"})
+				return val{e: fmt.Sprintf("(Eff.httpError %s %s)", m.e, code.e), g: append(m.g, code.g...)}, true
+			}
+			return val{}, false
+		}
+	}
+	if effectMethods[sel.Sel.Name] {
+		if s := c.info.Selections[sel]; s != nil && s.Kind() == types.MethodVal {
+			recv := c.expr(sel.X)
+			tys := []string{c.w.leanType(c.info.TypeOf(sel.X))}
+			es := []string{recv.e}
+			g := recv.g
+			sig := s.Obj().Type().(*types.Signature)
+			for i := 0; i < sig.Params().Len(); i++ {
+				if isIgnoredType(sig.Params().At(i).Type()) {
+					continue
+				}
+				a := c.exprAs(x.Args[i], sig.Params().At(i).Type())
+				es = append(es, a.e)
+				g = append(g, a.g...)
+				tys = append(tys, c.w.leanType(sig.Params().At(i).Type()))
+			}
+			reg(sel.Sel.Name, tys)
+			return val{e: fmt.Sprintf("(Eff.%s %s)", sel.Sel.Name, strings.Join(es, " ")), g: g}, true
+		}
+	}
+	return val{}, false
+}
+
+// hasEffects: does the body contain an effect call (syntactic pre-scan)
+func hasEffects(body *ast.BlockStmt, info *types.Info) bool {
+	found := false
+	ast.Inspect(body, func(n ast.Node) bool {
+		if es, ok := n.(*ast.ExprStmt); ok {
+			if x, ok := es.X.(*ast.CallExpr); ok {
+				if sel, ok := x.Fun.(*ast.SelectorExpr); ok {
+					if effectMethods[sel.Sel.Name] {
+						found = true
+					}
+					if id, ok := sel.X.(*ast.Ident); ok {
+						if pn, ok := info.Uses[id].(*types.PkgName); ok && pn.Imported().Path() == "net/http" && sel.Sel.Name == "Error" {
+							found = true
+						}
+					}
+				}
+			}
+		}
+		if _, ok := n.(*ast.FuncLit); ok {
+			return false // effects inside closure literals (error callbacks) are not part of the straight-line trace
+		}
+		return true
+	})
+	return found
+}
 
 // outParamMethods: interface methods that fill the struct behind one of their pointer arguments (argument index among
 // the non-context parameters).  The oracle returns the filled value after its Go results.
@@ -1613,6 +1715,11 @@ func (c *tctx) compositeOf(x *ast.CompositeLit, t types.Type) val {
 		if ft != nil && ft.String() == "encoding/xml.Name" {
 			continue
 		}
+		if ft != nil {
+			if _, isFunc := ft.Underlying().(*types.Signature); isFunc || ft.String() == "*html/template.Template" {
+				continue // callbacks and templates are not part of the decision data
+			}
+		}
 		c.w.useField(ns, fname)
 		var v val
 		if cl, ok := fe.(*ast.CompositeLit); ok && cl.Type == nil {
@@ -1759,7 +1866,23 @@ func (c *tctx) call(x *ast.CallExpr) val {
 		// method
 		if callee := c.calleeFn(fun); callee != nil {
 			recv := c.expr(fun.X)
-			es, g := c.args(x)
+			var es, g []string
+			{
+				msig := callee.obj.Type().(*types.Signature)
+				for i, a := range x.Args {
+					if i < msig.Params().Len() && isIgnoredType(msig.Params().At(i).Type()) {
+						continue // dropped from the translated signature as well
+					}
+					var v val
+					if i < msig.Params().Len() && !msig.Variadic() {
+						v = c.exprAs(a, msig.Params().At(i).Type())
+					} else {
+						v = c.expr(a)
+					}
+					es = append(es, v.e)
+					g = append(g, v.g...)
+				}
+			}
 			g = append(recv.g, g...)
 			all := append([]string{recv.e}, es...)
 			// receiver pointer-ness: translated methods take the receiver as declared
@@ -1878,6 +2001,36 @@ func (c *tctx) libCall(pkg, name string, x *ast.CallExpr) val {
 			// fmt.Errorf(variable): use the variable's text
 			return val{e: "(some " + es[0] + " : Err)", g: g}
 		}
+		if len(es) > 1 {
+			// fmt.Errorf("…: %w", err): the text, with the wrapped error's text in place (an error in argument position
+			// is non-nil wherever the code formats it; a nil one would print as %!w(<nil>), which the model writes as "")
+			var format string
+			_ = json.Unmarshal([]byte(tv.Value.ExactString()), &format)
+			re := regexp.MustCompile(`%[wsv]`)
+			parts := re.Split(format, -1)
+			if !strings.Contains(strings.Join(parts, ""), "%") && len(parts)-1 == len(es)-1 {
+				ok := true
+				var cat []string
+				for i, p := range parts {
+					if p != "" {
+						cat = append(cat, leanStr(p))
+					}
+					if i < len(parts)-1 {
+						switch c.info.TypeOf(x.Args[i+1]).String() {
+						case "error":
+							cat = append(cat, "("+es[i+1]+".getD \"\")")
+						case "string":
+							cat = append(cat, es[i+1])
+						default:
+							ok = false
+						}
+					}
+				}
+				if ok {
+					return val{e: "(some (" + strings.Join(cat, " ++ ") + ") : Err)", g: g}
+				}
+			}
+		}
 		return val{e: "(some " + es[0] + " : Err)", g: g}
 	case "fmt.Sprintf":
 		tv := c.info.Types[x.Args[0]]
@@ -1959,6 +2112,14 @@ func (c *tctx) methodCall(fun *ast.SelectorExpr, x *ast.CallExpr) val {
 		case "DecodeString":
 			return val{e: fmt.Sprintf("(let r_ := Lib.b64decode %s; (r_.getD [], (if r_.isSome then (none : Err) else some \"base64\")))", es[0]), g: g}
 		}
+	case rs == "*net/http.Request" && name == "ParseForm":
+		return val{e: c.oracle("m_ParseForm", "Err", "(*http.Request).ParseForm"), g: g}
+	case rs == "net/url.Values" && name == "Get":
+		// r.Form.Get(name): the request's form as an oracle
+		return val{e: fmt.Sprintf("(%s %s)", c.oracle("formGet", "String → String", "r.Form.Get(name) of the request being served"), es[0]), g: g}
+	case rs == "error" && name == "Error":
+		recv := c.expr(fun.X)
+		return val{e: fmt.Sprintf("(%s.getD \"\")", recv.e), g: append(recv.g, g...)}
 	case rs == "*net/url.URL" && name == "Hostname":
 		recv := c.expr(fun.X)
 		return val{e: fmt.Sprintf("(deref %s).hostname", recv.e), g: append(append(recv.g, recv.e+".isNone"), g...)}
@@ -2119,6 +2280,17 @@ func (w *world) emitLean() string {
 		}
 		for _, f := range fs {
 			fmt.Fprintf(&sb, "  %s : %s := default\n", f.Name(), w.leanType(f.Type()))
+		}
+		sb.WriteString("deriving Repr, DecidableEq, Inhabited\n\n")
+	}
+	if len(w.effOrd) > 0 {
+		sb.WriteString("/-- what a handler writes to its client, in order (the trace a translated handler returns) -/\ninductive Eff where\n")
+		for _, n := range w.effOrd {
+			fmt.Fprintf(&sb, "  | %s", n)
+			for i, t := range w.effs[n] {
+				fmt.Fprintf(&sb, " (a%d : %s)", i, t)
+			}
+			sb.WriteString("\n")
 		}
 		sb.WriteString("deriving Repr, DecidableEq, Inhabited\n\n")
 	}
